@@ -293,6 +293,13 @@ def run(ck):
             c13_1d(ck, prog)
         finally:
             ck.rule = save
+        from rules.C19 import c19_7
+        c19_7(ck, prog, 'C10.8')
+        from rules.C02 import c02_5
+        lib.shared_rule(ck, prog, 'C10.7', 'header edits the bus makes on a client\'s message (sender stamping, field '
+                        'stripping) walk and write the header in the message\'s own byte order (shared with C02.5)',
+                        'TAB', 'a foreign-byte-order message with a field the bus rewrites makes the daemon walk off '
+                        'the header (assertion / out-of-bounds read)', 12, c02_5)
         c10_2(ck, prog)
         c10_3(ck, prog)
         c10_4(ck, prog)
